@@ -61,6 +61,22 @@ impl Instance {
         }
         (out, n)
     }
+    /// Switches every template of the instance to autoescaping (the empty suffix ends every name)
+    /// with an escape function that copies its input: the text a render produces is unchanged, but
+    /// every print goes through the engine's escaping branch (scratch buffer, escape call, the
+    /// safe mark on captured text) instead of the direct write.
+    fn escaping_branch(&mut self, on: bool) {
+        fn copy(input: &str, out: &mut dyn std::io::Write) -> std::io::Result<()> {
+            out.write_all(input.as_bytes())
+        }
+        if on {
+            self.tera.set_escape_fn(copy);
+            self.tera.autoescape_on(vec![""]);
+        } else {
+            self.tera.autoescape_on(vec![".html", ".htm", ".xml"]);
+            self.tera.reset_escape_fn();
+        }
+    }
     fn set_globals(&mut self, b: &Bindings) {
         for k in self.globals.drain(..) {
             self.tera.global_context().remove(&k);
@@ -228,14 +244,18 @@ fn run_group(acc: &mut Acc, spec: &Spec, inst: &mut Instance, g: &Group<'_>, sel
                 };
                 acc.violation(sig, msg, || case_json(p, entry, b, &adm));
             } else if entry == MAIN {
-                // nothing survives a render: the same instance must answer the same again
+                // nothing survives a render: the same instance must answer the same again - this
+                // time with every print going through the escaping branch (identity escaper), so
+                // that scoping / capture / include behaviour is also observed on that path
+                inst.escaping_branch(true);
                 let again = engine::render(&inst.tera, entry, &ctx);
+                inst.escaping_branch(false);
                 renders += 1;
                 let same = if adm.len() > 1 { judge(&again, &adm).is_none() } else { again == out };
                 if !same {
                     acc.violation(
                         format!("rerender-differs:{}", spec.name),
-                        format!("second render of the same instance gave {}, first {}", again.show(), out.show()),
+                        format!("second render of the same instance (autoescaping on for every template, escape function = copy) gave {}, first {}", again.show(), out.show()),
                         || case_json(p, entry, b, &adm),
                     );
                 }
@@ -272,7 +292,7 @@ fn main() {
          rendered (marker trace produced) or was refused for a misplaced break/continue; incext always.",
     );
     run.assume("reference interpreter (refinterp.rs) encodes the property statement and docs/content/_index.md (If, For, Assignments, Include, Filters) and MIGRATION.md (one level of undefinedness); it is trusted");
-    run.assume("default feature set: strings iterate by char (no `unicode` feature); template names without .html so autoescaping is off (C01 covers escaping)");
+    run.assume("default feature set: strings iterate by char (no `unicode` feature); template names without .html so autoescaping is off (C01 covers escaping); the repeated render of every main program runs with autoescaping switched on for every template and an escape function that copies its input, and must give the same text");
     run.assume("pinned, not asserted as right: a byte string iterates as integers; `for v in map` may bind the value or the key (both accepted); a non-iterable / `k, v` over a non-map must be a rendering error");
     run.assume("map iteration order is unspecified: for 2-entry maps the engine must match the reference under one of the orders (the same order at every iteration of the same map value)");
     run.assume("outside: nestings deeper than the stated bounds, more than 2 templates in an include chain besides the placements, parser nesting limit (C06), expression semantics beyond conditions/prints used here (C02)");
